@@ -131,6 +131,15 @@ module Nat =
   let ltb n0 m =
     leb (S n0) m
 
+  (** val max : nat -> nat -> nat **)
+
+  let rec max n0 m =
+    match n0 with
+    | O -> m
+    | S n' -> (match m with
+               | O -> n0
+               | S m' -> S (max n' m'))
+
   (** val divmod : nat -> nat -> nat -> nat -> nat * nat **)
 
   let rec divmod x y q u =
@@ -972,6 +981,12 @@ module Z =
   | Zneg p -> Zpos p
   | x -> x
 
+  (** val to_nat : z -> nat **)
+
+  let to_nat = function
+  | Zpos p -> Coq_Pos.to_nat p
+  | _ -> O
+
   (** val to_N : z -> n **)
 
   let to_N = function
@@ -1083,6 +1098,14 @@ let zeros n0 =
 
 let ones n0 =
   repeat true n0
+
+(** val set_nth : nat -> 'a1 -> 'a1 list -> 'a1 list **)
+
+let rec set_nth n0 x = function
+| [] -> []
+| h :: t -> (match n0 with
+             | O -> x :: t
+             | S n' -> h :: (set_nth n' x t))
 
 (** val set_nth_opt : nat -> 'a1 -> 'a1 list -> 'a1 list option **)
 
@@ -3506,7 +3529,7 @@ let parse_header boc =
                let (p0, size0) = p in
                let (p1, hasCache) = p0 in
                let (hasIdx, hasCrc) = p1 in
-               if short (add (S O) (mul (S (S (S (S (S O))))) size0)) boc1
+               if short (add (S O) (mul (S (S (S O))) size0)) boc1
                then Err eParse
                else (match boc1 with
                      | [] -> Panic pIndex
@@ -4307,6 +4330,785 @@ let run_hashes = function
     false)), (String ((Ascii (true, true, false, false, true, true, true,
     false)), EmptyString))))))))))))
 
+type cinfo = { ci_node : nat; ci_cache : bool; ci_wt : nat;
+               ci_refs : nat list; ci_hashcount : nat; ci_new : z;
+               ci_root : bool }
+
+(** val set_ci : cinfo list -> nat -> cinfo -> cinfo list **)
+
+let set_ci l i c =
+  set_nth i c l
+
+(** val get_ci : cinfo list -> nat -> cinfo **)
+
+let get_ci l i =
+  nth i l { ci_node = O; ci_cache = false; ci_wt = O; ci_refs = [];
+    ci_hashcount = O; ci_new = (Zneg XH); ci_root = false }
+
+(** val with_new : cinfo -> z -> cinfo **)
+
+let with_new c z0 =
+  { ci_node = c.ci_node; ci_cache = c.ci_cache; ci_wt = c.ci_wt; ci_refs =
+    c.ci_refs; ci_hashcount = c.ci_hashcount; ci_new = z0; ci_root =
+    c.ci_root }
+
+(** val with_wt : cinfo -> nat -> cinfo **)
+
+let with_wt c w =
+  { ci_node = c.ci_node; ci_cache = c.ci_cache; ci_wt = w; ci_refs =
+    c.ci_refs; ci_hashcount = c.ci_hashcount; ci_new = c.ci_new; ci_root =
+    c.ci_root }
+
+(** val with_cache : cinfo -> cinfo **)
+
+let with_cache c =
+  { ci_node = c.ci_node; ci_cache = true; ci_wt = c.ci_wt; ci_refs =
+    c.ci_refs; ci_hashcount = c.ci_hashcount; ci_new = c.ci_new; ci_root =
+    c.ci_root }
+
+(** val with_refs : cinfo -> nat list -> cinfo **)
+
+let with_refs c r =
+  { ci_node = c.ci_node; ci_cache = c.ci_cache; ci_wt = c.ci_wt; ci_refs = r;
+    ci_hashcount = c.ci_hashcount; ci_new = c.ci_new; ci_root = c.ci_root }
+
+(** val with_root : cinfo -> cinfo **)
+
+let with_root c =
+  { ci_node = c.ci_node; ci_cache = c.ci_cache; ci_wt = c.ci_wt; ci_refs =
+    c.ci_refs; ci_hashcount = c.ci_hashcount; ci_new = c.ci_new; ci_root =
+    true }
+
+(** val eSer : n **)
+
+let eSer =
+  Npos (XO (XI (XI (XI XH))))
+
+(** val find_hash : bytes -> (bytes * nat) list -> nat option **)
+
+let rec find_hash h = function
+| [] -> None
+| p :: t ->
+  let (k0, v) = p in if bytes_eqb k0 h then Some v else find_hash h t
+
+(** val import_cell :
+    node list -> bytes res list -> nat -> cinfo list -> (bytes * nat) list ->
+    nat -> nat -> ((cinfo list * (bytes * nat) list) * nat) res **)
+
+let rec import_cell dag hashes fuel st m cell depth =
+  match fuel with
+  | O -> Err eFuel
+  | S f ->
+    if Nat.ltb (S (S (S (S (S (S (S (S (S (S (S (S (S (S (S (S (S (S (S (S (S
+         (S (S (S (S (S (S (S (S (S (S (S (S (S (S (S (S (S (S (S (S (S (S (S
+         (S (S (S (S (S (S (S (S (S (S (S (S (S (S (S (S (S (S (S (S (S (S (S
+         (S (S (S (S (S (S (S (S (S (S (S (S (S (S (S (S (S (S (S (S (S (S (S
+         (S (S (S (S (S (S (S (S (S (S (S (S (S (S (S (S (S (S (S (S (S (S (S
+         (S (S (S (S (S (S (S (S (S (S (S (S (S (S (S (S (S (S (S (S (S (S (S
+         (S (S (S (S (S (S (S (S (S (S (S (S (S (S (S (S (S (S (S (S (S (S (S
+         (S (S (S (S (S (S (S (S (S (S (S (S (S (S (S (S (S (S (S (S (S (S (S
+         (S (S (S (S (S (S (S (S (S (S (S (S (S (S (S (S (S (S (S (S (S (S (S
+         (S (S (S (S (S (S (S (S (S (S (S (S (S (S (S (S (S (S (S (S (S (S (S
+         (S (S (S (S (S (S (S (S (S (S (S (S (S (S (S (S (S (S (S (S (S (S (S
+         (S (S (S (S (S (S (S (S (S (S (S (S (S (S (S (S (S (S (S (S (S (S (S
+         (S (S (S (S (S (S (S (S (S (S (S (S (S (S (S (S (S (S (S (S (S (S (S
+         (S (S (S (S (S (S (S (S (S (S (S (S (S (S (S (S (S (S (S (S (S (S (S
+         (S (S (S (S (S (S (S (S (S (S (S (S (S (S (S (S (S (S (S (S (S (S (S
+         (S (S (S (S (S (S (S (S (S (S (S (S (S (S (S (S (S (S (S (S (S (S (S
+         (S (S (S (S (S (S (S (S (S (S (S (S (S (S (S (S (S (S (S (S (S (S (S
+         (S (S (S (S (S (S (S (S (S (S (S (S (S (S (S (S (S (S (S (S (S (S (S
+         (S (S (S (S (S (S (S (S (S (S (S (S (S (S (S (S (S (S (S (S (S (S (S
+         (S (S (S (S (S (S (S (S (S (S (S (S (S (S (S (S (S (S (S (S (S (S (S
+         (S (S (S (S (S (S (S (S (S (S (S (S (S (S (S (S (S (S (S (S (S (S (S
+         (S (S (S (S (S (S (S (S (S (S (S (S (S (S (S (S (S (S (S (S (S (S (S
+         (S (S (S (S (S (S (S (S (S (S (S (S (S (S (S (S (S (S (S (S (S (S (S
+         (S (S (S (S (S (S (S (S (S (S (S (S (S (S (S (S (S (S (S (S (S (S (S
+         (S (S (S (S (S (S (S (S (S (S (S (S (S (S (S (S (S (S (S (S (S (S (S
+         (S (S (S (S (S (S (S (S (S (S (S (S (S (S (S (S (S (S (S (S (S (S (S
+         (S (S (S (S (S (S (S (S (S (S (S (S (S (S (S (S (S (S (S (S (S (S (S
+         (S (S (S (S (S (S (S (S (S (S (S (S (S (S (S (S (S (S (S (S (S (S (S
+         (S (S (S (S (S (S (S (S (S (S (S (S (S (S (S (S (S (S (S (S (S (S (S
+         (S (S (S (S (S (S (S (S (S (S (S (S (S (S (S (S (S (S (S (S (S (S (S
+         (S (S (S (S (S (S (S (S (S (S (S (S (S (S (S (S (S (S (S (S (S (S (S
+         (S (S (S (S (S (S (S (S (S (S (S (S (S (S (S (S (S (S (S (S (S (S (S
+         (S (S (S (S (S (S (S (S (S (S (S (S (S (S (S (S (S (S (S (S (S (S (S
+         (S (S (S (S (S (S (S (S (S (S (S (S (S (S (S (S (S (S (S (S (S (S (S
+         (S (S (S (S (S (S (S (S (S (S (S (S (S (S (S (S (S (S (S (S (S (S (S
+         (S (S (S (S (S (S (S (S (S (S (S (S (S (S (S (S (S (S (S (S (S (S (S
+         (S (S (S (S (S (S (S (S (S (S (S (S (S (S (S (S (S (S (S (S (S (S (S
+         (S (S (S (S (S (S (S (S (S (S (S (S (S (S (S (S (S (S (S (S (S (S (S
+         (S (S (S (S (S (S (S (S (S (S (S (S (S (S (S (S (S (S (S (S (S (S (S
+         (S (S (S (S (S (S (S (S (S (S (S (S (S (S (S (S (S (S (S (S (S (S (S
+         (S (S (S (S (S (S (S (S (S (S (S (S (S (S (S (S (S (S (S (S (S (S (S
+         (S (S (S (S (S (S (S (S (S (S (S (S (S (S (S (S (S (S (S (S (S (S (S
+         (S (S (S (S (S (S (S (S (S (S (S (S (S (S (S (S (S (S (S (S (S (S (S
+         (S (S (S (S (S (S (S (S (S (S (S (S (S (S (S (S (S (S (S (S (S (S (S
+         (S (S (S (S (S (S (S (S (S (S (S (S (S (S
+         O))))))))))))))))))))))))))))))))))))))))))))))))))))))))))))))))))))))))))))))))))))))))))))))))))))))))))))))))))))))))))))))))))))))))))))))))))))))))))))))))))))))))))))))))))))))))))))))))))))))))))))))))))))))))))))))))))))))))))))))))))))))))))))))))))))))))))))))))))))))))))))))))))))))))))))))))))))))))))))))))))))))))))))))))))))))))))))))))))))))))))))))))))))))))))))))))))))))))))))))))))))))))))))))))))))))))))))))))))))))))))))))))))))))))))))))))))))))))))))))))))))))))))))))))))))))))))))))))))))))))))))))))))))))))))))))))))))))))))))))))))))))))))))))))))))))))))))))))))))))))))))))))))))))))))))))))))))))))))))))))))))))))))))))))))))))))))))))))))))))))))))))))))))))))))))))))))))))))))))))))))))))))))))))))))))))))))))))))))))))))))))))))))))))))))))))))))))))))))))))))))))))))))))))))))))))))))))))))))))))))))))))))))))))))))))))))))))))))))))))))))))))))))))))))))))))))))))))))))))))))))))))))))))))))))))))))))))))))))))))))))))))))))))))))))))))))))))))))))))))))))))))))))))))))))))))))
+         depth
+    then Err eDepth
+    else (match nth_error hashes cell with
+          | Some rh ->
+            (match nth_error dag cell with
+             | Some nd ->
+               bind rh (fun h ->
+                 match find_hash h m with
+                 | Some pos ->
+                   Ok (((set_ci st pos (with_cache (get_ci st pos))), m), pos)
+                 | None ->
+                   let refs_loop =
+                     let rec refs_loop rs st0 m0 acc sum =
+                       match rs with
+                       | [] -> Ok (((st0, m0), (rev acc)), sum)
+                       | r :: t ->
+                         bind (import_cell dag hashes f st0 m0 r (S depth))
+                           (fun x ->
+                           let (p, pos) = x in
+                           let (st', m') = p in
+                           refs_loop t st' m' (pos :: acc)
+                             (add sum (get_ci st' pos).ci_wt))
+                     in refs_loop
+                   in
+                   bind (refs_loop nd.n_refs st m [] (S O)) (fun y ->
+                     let (p, sum) = y in
+                     let (p0, refs) = p in
+                     let (st', m') = p0 in
+                     let wt =
+                       if Nat.ltb (S (S (S (S (S (S (S (S (S (S (S (S (S (S
+                            (S (S (S (S (S (S (S (S (S (S (S (S (S (S (S (S
+                            (S (S (S (S (S (S (S (S (S (S (S (S (S (S (S (S
+                            (S (S (S (S (S (S (S (S (S (S (S (S (S (S (S (S
+                            (S (S (S (S (S (S (S (S (S (S (S (S (S (S (S (S
+                            (S (S (S (S (S (S (S (S (S (S (S (S (S (S (S (S
+                            (S (S (S (S (S (S (S (S (S (S (S (S (S (S (S (S
+                            (S (S (S (S (S (S (S (S (S (S (S (S (S (S (S (S
+                            (S (S (S (S (S (S (S (S (S (S (S (S (S (S (S (S
+                            (S (S (S (S (S (S (S (S (S (S (S (S (S (S (S (S
+                            (S (S (S (S (S (S (S (S (S (S (S (S (S (S (S (S
+                            (S (S (S (S (S (S (S (S (S (S (S (S (S (S (S (S
+                            (S (S (S (S (S (S (S (S (S (S (S (S (S (S (S (S
+                            (S (S (S (S (S (S (S (S (S (S (S (S (S (S (S (S
+                            (S (S (S (S (S (S (S (S (S (S (S (S (S (S (S (S
+                            (S (S (S (S (S (S (S (S (S (S (S (S (S (S (S (S
+                            (S
+                            O)))))))))))))))))))))))))))))))))))))))))))))))))))))))))))))))))))))))))))))))))))))))))))))))))))))))))))))))))))))))))))))))))))))))))))))))))))))))))))))))))))))))))))))))))))))))))))))))))))))))))))))))))))))))))))))))))))))))))))))))))))))))))))))))
+                            sum
+                       then S (S (S (S (S (S (S (S (S (S (S (S (S (S (S (S (S
+                              (S (S (S (S (S (S (S (S (S (S (S (S (S (S (S (S
+                              (S (S (S (S (S (S (S (S (S (S (S (S (S (S (S (S
+                              (S (S (S (S (S (S (S (S (S (S (S (S (S (S (S (S
+                              (S (S (S (S (S (S (S (S (S (S (S (S (S (S (S (S
+                              (S (S (S (S (S (S (S (S (S (S (S (S (S (S (S (S
+                              (S (S (S (S (S (S (S (S (S (S (S (S (S (S (S (S
+                              (S (S (S (S (S (S (S (S (S (S (S (S (S (S (S (S
+                              (S (S (S (S (S (S (S (S (S (S (S (S (S (S (S (S
+                              (S (S (S (S (S (S (S (S (S (S (S (S (S (S (S (S
+                              (S (S (S (S (S (S (S (S (S (S (S (S (S (S (S (S
+                              (S (S (S (S (S (S (S (S (S (S (S (S (S (S (S (S
+                              (S (S (S (S (S (S (S (S (S (S (S (S (S (S (S (S
+                              (S (S (S (S (S (S (S (S (S (S (S (S (S (S (S (S
+                              (S (S (S (S (S (S (S (S (S (S (S (S (S (S (S (S
+                              (S (S (S (S (S (S (S (S (S (S (S (S (S (S
+                              O))))))))))))))))))))))))))))))))))))))))))))))))))))))))))))))))))))))))))))))))))))))))))))))))))))))))))))))))))))))))))))))))))))))))))))))))))))))))))))))))))))))))))))))))))))))))))))))))))))))))))))))))))))))))))))))))))))))))))))))))))))))))))))))
+                       else sum
+                     in
+                     let pos = length st' in
+                     Ok
+                     (((app st' ({ ci_node = cell; ci_cache = false; ci_wt =
+                         wt; ci_refs = refs; ci_hashcount = (S
+                         (mask_popcount nd.n_mask)); ci_new = (Zneg XH);
+                         ci_root = false } :: [])), ((h, pos) :: m')), pos)))
+             | None -> Panic pNil)
+          | None -> Panic pNil)
+
+(** val maxCellWhs : nat **)
+
+let maxCellWhs =
+  S (S (S (S (S (S (S (S (S (S (S (S (S (S (S (S (S (S (S (S (S (S (S (S (S
+    (S (S (S (S (S (S (S (S (S (S (S (S (S (S (S (S (S (S (S (S (S (S (S (S
+    (S (S (S (S (S (S (S (S (S (S (S (S (S (S (S
+    O)))))))))))))))))))))))))))))))))))))))))))))))))))))))))))))))
+
+(** val pass1_cell : cinfo list -> nat -> cinfo list **)
+
+let pass1_cell st i =
+  let dci = get_ci st i in
+  let k0 = length dci.ci_refs in
+  let step1 = fun acc jr ->
+    let (p, mask0) = acc in
+    let (c, sum) = p in
+    let (j, r) = jr in
+    let wt = (get_ci st r).ci_wt in
+    let limit = Nat.div (add (sub maxCellWhs (S O)) j) k0 in
+    if Nat.leb wt limit
+    then (((sub c (S O)), (sub sum wt)), (app mask0 (true :: [])))
+    else ((c, sum), (app mask0 (false :: [])))
+  in
+  let idx = combine (seq O k0) dci.ci_refs in
+  let (p, mask0) = fold_left step1 idx ((k0, (sub maxCellWhs (S O))), []) in
+  let (c, sum) = p in
+  if Nat.ltb O c
+  then let step2 = fun acc jr ->
+         let (st0, sum0) = acc in
+         let (j, r) = jr in
+         if nth j mask0 false
+         then (st0, sum0)
+         else let sum' = S sum0 in
+              let limit = Nat.div sum' c in
+              let dcj = get_ci st0 r in
+              if Nat.ltb limit dcj.ci_wt
+              then ((set_ci st0 r (with_wt dcj limit)), sum')
+              else (st0, sum')
+       in
+       fst (fold_left step2 idx (st, sum))
+  else st
+
+(** val pass2_cell : cinfo list -> nat -> cinfo list **)
+
+let pass2_cell st i =
+  let dci = get_ci st i in
+  let sum = fold_left (fun s r -> add s (get_ci st r).ci_wt) dci.ci_refs (S O)
+  in
+  if Nat.leb sum dci.ci_wt
+  then set_ci st i (with_wt dci sum)
+  else set_ci st i (with_wt dci O)
+
+type force =
+| Previsit
+| Visit
+| Allocate
+
+(** val revisit :
+    nat -> cinfo list -> nat list -> nat -> force -> ((cinfo list * nat
+    list) * z) res **)
+
+let rec revisit fuel st nl idx f =
+  match fuel with
+  | O -> Err eFuel
+  | S fu ->
+    let dci = get_ci st idx in
+    if Z.leb Z0 dci.ci_new
+    then Ok ((st, nl), dci.ci_new)
+    else (match f with
+          | Previsit ->
+            if negb (Z.eqb dci.ci_new (Zneg XH))
+            then Ok ((st, nl), dci.ci_new)
+            else let loop =
+                   let rec loop rs st0 nl0 =
+                     match rs with
+                     | [] -> Ok (st0, nl0)
+                     | r :: t ->
+                       let special = Nat.eqb (get_ci st0 r).ci_wt O in
+                       bind
+                         (revisit fu st0 nl0 r
+                           (if special then Visit else Previsit)) (fun x ->
+                         let (p, _) = x in
+                         let (st', nl') = p in loop t st' nl')
+                   in loop
+                 in
+                 bind (loop (rev dci.ci_refs) st nl) (fun y ->
+                   let (st', nl') = y in
+                   Ok
+                   (((set_ci st' idx
+                       (with_new (get_ci st' idx) (Zneg (XO XH)))), nl'),
+                   (Zneg (XO XH))))
+          | Visit ->
+            if Z.eqb dci.ci_new (Zneg (XI XH))
+            then Ok ((st, nl), (Zneg (XI XH)))
+            else bind
+                   (if Nat.eqb dci.ci_wt O
+                    then bind (revisit fu st nl idx Previsit) (fun x ->
+                           let (p, _) = x in let (s, n0) = p in Ok (s, n0))
+                    else Ok (st, nl)) (fun x0 ->
+                   let (st0, nl0) = x0 in
+                   let vloop =
+                     let rec vloop rs st1 nl1 =
+                       match rs with
+                       | [] -> Ok (st1, nl1)
+                       | r :: t ->
+                         bind (revisit fu st1 nl1 r Visit) (fun x ->
+                           let (p, _) = x in
+                           let (st', nl') = p in vloop t st' nl')
+                     in vloop
+                   in
+                   bind (vloop (rev (get_ci st0 idx).ci_refs) st0 nl0)
+                     (fun y ->
+                     let (st1, nl1) = y in
+                     let aloop =
+                       let rec aloop js st2 nl2 =
+                         match js with
+                         | [] -> Ok (st2, nl2)
+                         | j :: t ->
+                           let r = nth j (get_ci st2 idx).ci_refs O in
+                           bind (revisit fu st2 nl2 r Allocate) (fun x ->
+                             let (p, k0) = x in
+                             let (st', nl') = p in
+                             let me = get_ci st' idx in
+                             aloop t
+                               (set_ci st' idx
+                                 (with_refs me
+                                   (set_nth j (Z.to_nat k0) me.ci_refs))) nl')
+                       in aloop
+                     in
+                     bind
+                       (aloop (rev (seq O (length (get_ci st1 idx).ci_refs)))
+                         st1 nl1) (fun z0 ->
+                       let (st2, nl2) = z0 in
+                       Ok
+                       (((set_ci st2 idx
+                           (with_new (get_ci st2 idx) (Zneg (XI XH)))), nl2),
+                       (Zneg (XI XH))))))
+          | Allocate ->
+            let k0 = Z.of_nat (length nl) in
+            Ok (((set_ci st idx (with_new dci k0)), (app nl (idx :: []))), k0))
+
+(** val for_roots : ('a1 -> nat -> 'a1 res) -> 'a1 -> nat list -> 'a1 res **)
+
+let rec for_roots f s = function
+| [] -> Ok s
+| r :: t -> bind (f s r) (fun s' -> for_roots f s' t)
+
+(** val reorder :
+    cinfo list -> nat list -> ((cinfo list * nat list) * nat list) res **)
+
+let reorder st roots =
+  let n0 = length st in
+  let st1 = fold_left pass1_cell (rev (seq O n0)) st in
+  let st2 = fold_left pass2_cell (seq O n0) st1 in
+  let st3 =
+    fold_left (fun s r -> set_ci s r (with_root (get_ci s r))) roots st2
+  in
+  if Nat.eqb n0 O
+  then Ok ((st3, []), roots)
+  else let fuel =
+         add (mul (S (S (S (S O)))) n0) (S (S (S (S (S (S (S (S O))))))))
+       in
+       bind
+         (for_roots (fun s r ->
+           bind (revisit fuel (fst s) (snd s) r Previsit) (fun x ->
+             let (p, _) = x in
+             let (s1, n1) = p in
+             bind (revisit fuel s1 n1 r Visit) (fun y ->
+               let (p0, _) = y in let (s2, n2) = p0 in Ok (s2, n2)))) (st3,
+           []) roots) (fun a ->
+         bind
+           (for_roots (fun s r ->
+             bind (revisit fuel (fst s) (snd s) r Allocate) (fun x ->
+               let (p, _) = x in let (s1, n1) = p in Ok (s1, n1))) a roots)
+           (fun b ->
+           let (stf, nl) = b in
+           Ok ((stf, nl),
+           (map (fun r -> Z.to_nat (get_ci stf r).ci_new) roots))))
+
+(** val import_roots :
+    node list -> bytes res list -> nat list -> ((cinfo list * nat list) * nat
+    list) res **)
+
+let import_roots dag hashes roots =
+  bind
+    (for_roots (fun s r ->
+      let (p, acc) = s in
+      let (st, m) = p in
+      bind (import_cell dag hashes (S (length dag)) st m r O) (fun x ->
+        let (p0, pos) = x in
+        let (st', m') = p0 in Ok ((st', m'), (app acc (pos :: []))))) (([],
+      []), []) roots) (fun a ->
+    let (p, rootpos) = a in let (st, _) = p in reorder st rootpos)
+
+(** val be_n : nat -> n -> bytes **)
+
+let be_n n0 v =
+  rev
+    (map (fun i ->
+      N.coq_land (N.shiftr v (N.mul (Npos (XO (XO (XO XH)))) (N.of_nat i)))
+        (Npos (XI (XI (XI (XI (XI (XI (XI XH))))))))) (seq O n0))
+
+(** val byte_len : n -> nat **)
+
+let byte_len v =
+  Nat.max
+    (Nat.div (add (N.to_nat (N.size v)) (S (S (S (S (S (S (S O)))))))) (S (S
+      (S (S (S (S (S (S O))))))))) (S O)
+
+(** val serialize :
+    node list -> bytes res list -> nat list -> bool -> bool -> bool -> bytes
+    res **)
+
+let serialize dag hashes roots idx hasCrc cacheBits =
+  bind (import_roots dag hashes roots) (fun ir ->
+    let (p, rootidx) = ir in
+    let (st, nl) = p in
+    let infos = map (get_ci st) nl in
+    let cellCount = length infos in
+    let refSize = byte_len (N.of_nat cellCount) in
+    let repr_of = fun ci ->
+      match nth_error dag ci.ci_node with
+      | Some nd ->
+        app
+          (repr_no_refs (length ci.ci_refs) nd.n_special nd.n_mask nd.n_bits)
+          (flat_map (fun r ->
+            be_n refSize (N.of_nat (sub (sub cellCount (S O)) r))) ci.ci_refs)
+      | None -> []
+    in
+    let reps = map repr_of infos in
+    let step0 = fun acc p0 ->
+      let (off, offs) = acc in
+      let (ci, rep) = p0 in
+      let off' = N.add off (N.of_nat (length rep)) in
+      let fixed =
+        if cacheBits
+        then N.add (N.mul (Npos (XO XH)) off')
+               (if ci.ci_cache then Npos XH else N0)
+        else off'
+      in
+      (off', (fixed :: offs))
+    in
+    let (total, offsets) = fold_left step0 (rev (combine infos reps)) (N0, [])
+    in
+    let offSize = byte_len total in
+    let flags =
+      N.add
+        (N.add
+          (if idx then Npos (XO (XO (XO (XO (XO (XO (XO XH))))))) else N0)
+          (if hasCrc then Npos (XO (XO (XO (XO (XO (XO XH)))))) else N0))
+        (if cacheBits then Npos (XO (XO (XO (XO (XO XH))))) else N0)
+    in
+    let sizeField = N.of_nat (Nat.modulo refSize (S (S (S (S O))))) in
+    let header0 =
+      app magic_reach
+        (app ((N.add flags sizeField) :: [])
+          (app
+            ((N.of_nat
+               (Nat.modulo offSize (S (S (S (S (S (S (S (S (S (S (S (S (S (S
+                 (S (S (S (S (S (S (S (S (S (S (S (S (S (S (S (S (S (S (S (S
+                 (S (S (S (S (S (S (S (S (S (S (S (S (S (S (S (S (S (S (S (S
+                 (S (S (S (S (S (S (S (S (S (S (S (S (S (S (S (S (S (S (S (S
+                 (S (S (S (S (S (S (S (S (S (S (S (S (S (S (S (S (S (S (S (S
+                 (S (S (S (S (S (S (S (S (S (S (S (S (S (S (S (S (S (S (S (S
+                 (S (S (S (S (S (S (S (S (S (S (S (S (S (S (S (S (S (S (S (S
+                 (S (S (S (S (S (S (S (S (S (S (S (S (S (S (S (S (S (S (S (S
+                 (S (S (S (S (S (S (S (S (S (S (S (S (S (S (S (S (S (S (S (S
+                 (S (S (S (S (S (S (S (S (S (S (S (S (S (S (S (S (S (S (S (S
+                 (S (S (S (S (S (S (S (S (S (S (S (S (S (S (S (S (S (S (S (S
+                 (S (S (S (S (S (S (S (S (S (S (S (S (S (S (S (S (S (S (S (S
+                 (S (S (S (S (S (S (S (S (S (S (S (S (S (S (S (S (S (S (S (S
+                 (S (S
+                 O)))))))))))))))))))))))))))))))))))))))))))))))))))))))))))))))))))))))))))))))))))))))))))))))))))))))))))))))))))))))))))))))))))))))))))))))))))))))))))))))))))))))))))))))))))))))))))))))))))))))))))))))))))))))))))))))))))))))))))))))))))))))))))))))))) :: [])
+            (app (be_n refSize (N.of_nat cellCount))
+              (app (be_n refSize (N.of_nat (length rootidx)))
+                (app (be_n refSize N0)
+                  (app (be_n offSize total)
+                    (flat_map (fun r ->
+                      be_n refSize (N.of_nat (sub (sub cellCount (S O)) r)))
+                      rootidx)))))))
+    in
+    let index = if idx then flat_map (be_n offSize) (rev offsets) else [] in
+    let body = app header0 (app index (concat (rev reps))) in
+    if N.ltb
+         (N.of_nat
+           (mul
+             (add
+               (add (S (S (S (S (S (S (S (S (S (S (S (S (S (S (S (S (S (S (S
+                 (S (S (S (S (S (S (S (S (S (S (S (S (S (S (S (S (S (S (S (S
+                 (S (S (S (S (S (S (S (S (S (S (S (S (S (S (S (S (S (S (S (S
+                 (S (S (S (S (S (S (S (S (S (S (S (S (S (S (S (S (S (S (S (S
+                 (S (S (S (S (S (S (S (S (S (S (S (S (S (S (S (S (S (S (S (S
+                 (S (S (S (S (S (S (S (S (S (S (S (S (S (S (S (S (S (S (S (S
+                 (S (S (S (S (S (S (S (S (S (S (S (S (S (S (S (S (S (S (S (S
+                 (S (S (S (S (S (S (S (S (S (S (S (S (S (S (S (S (S (S (S (S
+                 (S (S (S (S (S (S (S (S (S (S (S (S (S (S (S (S (S (S (S (S
+                 (S (S (S (S (S (S (S (S (S (S (S (S (S (S (S (S (S (S (S (S
+                 (S (S (S (S (S (S (S (S (S (S (S (S (S (S (S (S (S (S (S (S
+                 (S (S (S (S (S (S (S (S (S (S (S (S (S (S (S (S (S (S (S (S
+                 (S (S (S (S (S (S (S (S (S (S (S (S (S (S (S (S (S (S (S (S
+                 (S (S (S (S (S (S (S (S (S (S (S (S (S (S (S (S (S (S (S (S
+                 (S (S (S (S (S (S (S (S (S (S (S (S (S (S (S (S (S (S (S (S
+                 (S (S (S (S (S (S (S (S (S (S (S (S (S (S (S (S (S (S (S (S
+                 (S (S (S (S (S (S (S (S (S (S (S (S (S (S (S (S (S (S (S (S
+                 (S (S (S (S (S (S (S (S (S (S (S (S (S (S (S (S (S (S (S (S
+                 (S (S (S (S (S (S (S (S (S (S (S (S (S (S (S (S (S (S (S (S
+                 (S (S (S (S (S (S (S (S (S (S (S (S (S (S (S (S (S (S (S (S
+                 (S (S (S (S (S (S (S (S (S (S (S (S (S (S (S (S (S (S (S (S
+                 (S (S (S (S (S (S (S (S (S (S (S (S (S (S (S (S (S (S (S (S
+                 (S (S (S (S (S (S (S (S (S (S (S (S (S (S (S (S (S (S (S (S
+                 (S (S (S (S (S (S (S (S (S (S (S (S (S (S (S (S (S (S (S (S
+                 (S (S (S (S (S (S (S (S (S (S (S (S (S (S (S (S (S (S (S (S
+                 (S (S (S (S (S (S (S (S (S (S (S (S (S (S (S (S (S (S (S (S
+                 (S (S (S (S (S (S (S (S (S (S (S (S (S (S (S (S (S (S (S (S
+                 (S (S (S (S (S (S (S (S (S (S (S (S (S (S (S (S (S (S (S (S
+                 (S (S (S (S (S (S (S (S (S (S (S (S (S (S (S (S (S (S (S (S
+                 (S (S (S (S (S (S (S (S (S (S (S (S (S (S (S (S (S (S (S (S
+                 (S (S (S (S (S (S (S (S (S (S (S (S (S (S (S (S (S (S (S (S
+                 (S (S (S (S (S (S (S (S (S (S (S (S (S (S (S (S (S (S (S (S
+                 (S (S (S (S (S (S (S (S (S (S (S (S (S (S (S (S (S (S (S (S
+                 (S (S (S (S (S (S (S (S (S (S (S (S (S (S (S (S (S (S (S (S
+                 (S (S (S (S (S (S (S (S (S (S (S (S (S (S (S (S (S (S (S (S
+                 (S (S (S (S (S (S (S (S (S (S (S (S (S (S (S (S (S (S (S (S
+                 (S (S (S (S (S (S (S (S (S (S (S (S (S (S (S (S (S (S (S (S
+                 (S (S (S (S (S (S (S (S (S (S (S (S (S (S (S (S (S (S (S (S
+                 (S (S (S (S (S (S (S (S (S (S (S (S (S (S (S (S (S (S (S (S
+                 (S (S (S (S (S (S (S (S (S (S (S (S (S (S (S (S (S (S (S (S
+                 (S (S (S (S (S (S (S (S (S (S (S (S (S (S (S (S (S (S (S (S
+                 (S (S (S (S (S (S (S (S (S (S (S (S (S (S (S (S (S (S (S (S
+                 (S (S (S (S (S (S (S (S (S (S (S (S (S (S (S (S (S (S (S (S
+                 (S (S (S (S (S (S (S (S (S (S (S (S (S (S (S (S (S (S (S (S
+                 (S (S (S (S (S (S (S (S (S (S (S (S (S (S (S (S (S (S (S (S
+                 (S (S (S (S (S (S (S (S (S (S (S (S (S (S (S (S (S (S (S (S
+                 (S (S (S (S (S (S (S (S (S (S (S (S (S (S (S (S (S (S (S (S
+                 (S (S (S (S (S (S (S (S (S (S (S (S (S (S (S (S (S (S (S (S
+                 (S (S (S (S (S (S (S (S (S (S (S (S (S (S (S (S (S (S (S (S
+                 (S (S (S (S (S (S (S (S (S (S (S (S (S (S (S (S (S (S (S (S
+                 (S (S (S (S (S (S (S (S (S (S (S (S (S (S (S (S (S (S (S (S
+                 (S (S (S (S
+                 O)))))))))))))))))))))))))))))))))))))))))))))))))))))))))))))))))))))))))))))))))))))))))))))))))))))))))))))))))))))))))))))))))))))))))))))))))))))))))))))))))))))))))))))))))))))))))))))))))))))))))))))))))))))))))))))))))))))))))))))))))))))))))))))))))))))))))))))))))))))))))))))))))))))))))))))))))))))))))))))))))))))))))))))))))))))))))))))))))))))))))))))))))))))))))))))))))))))))))))))))))))))))))))))))))))))))))))))))))))))))))))))))))))))))))))))))))))))))))))))))))))))))))))))))))))))))))))))))))))))))))))))))))))))))))))))))))))))))))))))))))))))))))))))))))))))))))))))))))))))))))))))))))))))))))))))))))))))))))))))))))))))))))))))))))))))))))))))))))))))))))))))))))))))))))))))))))))))))))))))))))))))))))))))))))))))))))))))))))))))))))))))))))))))))))))))))))))))))))))))))))))))))))))))))))))))))))))))))))))))))))))))))))))))))))))))))))))))))))))))))))))))))))))))))))))))))))))))))))))))))))))))))))))))))))))))))))))))))))))))))))))))))))))))))))))))))))))))))))))))))))))))))))))))))))))))))
+                 (mul (S (S (S (S (S (S (S (S (S (S (S (S (S (S (S (S (S (S
+                   (S (S (S (S (S (S (S (S (S (S (S (S (S (S
+                   O)))))))))))))))))))))))))))))))) (S (S (S (S O))))))
+               (mul (S (S (S (S (S (S (S (S (S (S (S (S (S (S (S (S (S (S (S
+                 (S (S (S (S (S (S (S (S (S (S (S (S (S
+                 O)))))))))))))))))))))))))))))))) (S (S (S O))))) cellCount))
+         (N.mul (Npos (XO (XO (XO XH)))) (N.of_nat (length body)))
+    then Err eSer
+    else Ok
+           (if hasCrc
+            then app body (rev (be_n (S (S (S (S O)))) (crc32c body)))
+            else body))
+
+(** val hashes_of : node list -> bytes res list **)
+
+let hashes_of cells =
+  map (fun ri -> bind ri cell_hash) (eval_dag sha256 O cells)
+
+(** val reach_from : node list -> nat -> bool list -> bool list **)
+
+let rec reach_from cells i marks =
+  match cells with
+  | [] -> []
+  | c :: rest ->
+    (match marks with
+     | [] -> []
+     | m :: ms ->
+       let ms' =
+         if m
+         then fold_left (fun acc r -> set_nth (sub r (S i)) true acc)
+                c.n_refs ms
+         else ms
+       in
+       m :: (reach_from rest (S i) ms'))
+
+(** val mem_bytes : bytes -> bytes list -> bool **)
+
+let rec mem_bytes h = function
+| [] -> false
+| x :: t -> (||) (bytes_eqb x h) (mem_bytes h t)
+
+(** val distinct : bytes list -> bytes list -> bytes list **)
+
+let rec distinct l acc =
+  match l with
+  | [] -> acc
+  | x :: t ->
+    if mem_bytes x acc then distinct t acc else distinct t (x :: acc)
+
+(** val all_ok : 'a1 res list -> 'a1 list option **)
+
+let rec all_ok = function
+| [] -> Some []
+| r :: t ->
+  (match r with
+   | Ok a -> (match all_ok t with
+              | Some r0 -> Some (a :: r0)
+              | None -> None)
+   | _ -> None)
+
+(** val certificate : node list -> nat -> bytes -> bool **)
+
+let certificate cells root out =
+  match parse_boc out with
+  | Ok p ->
+    (match p.p_roots with
+     | [] -> false
+     | r' :: l ->
+       (match l with
+        | [] ->
+          let hs' = hashes_of p.p_cells in
+          let hs = hashes_of cells in
+          (match nth_error hs' r' with
+           | Some r ->
+             (match r with
+              | Ok h' ->
+                (match nth_error hs root with
+                 | Some r0 ->
+                   (match r0 with
+                    | Ok h ->
+                      (match all_ok hs' with
+                       | Some allh' ->
+                         let marks =
+                           reach_from (skipn root cells) root
+                             (true :: (repeat false
+                                        (sub (sub (length cells) root) (S O))))
+                         in
+                         let reach_hs =
+                           flat_map (fun p0 ->
+                             let (y, y0) = p0 in
+                             if y
+                             then (match y0 with
+                                   | Ok x -> x :: []
+                                   | _ -> [])
+                             else []) (combine marks (skipn root hs))
+                         in
+                         (&&)
+                           ((&&) (bytes_eqb h h')
+                             (Nat.eqb (length (distinct allh' []))
+                               (length allh')))
+                           (Nat.eqb (length (distinct reach_hs []))
+                             (length allh'))
+                       | None -> false)
+                    | _ -> false)
+                 | None -> false)
+              | _ -> false)
+           | None -> false)
+        | _ :: _ -> false))
+  | _ -> false
+
+(** val run_ser : sx -> sx **)
+
+let run_ser = function
+| SL l ->
+  (match l with
+   | [] ->
+     sx_err (String ((Ascii (true, true, false, false, true, true, true,
+       false)), (String ((Ascii (true, false, true, false, false, true, true,
+       false)), (String ((Ascii (false, true, false, false, true, true, true,
+       false)), EmptyString))))))
+   | s :: l0 ->
+     (match s with
+      | SL dag ->
+        (match l0 with
+         | [] ->
+           sx_err (String ((Ascii (true, true, false, false, true, true,
+             true, false)), (String ((Ascii (true, false, true, false, false,
+             true, true, false)), (String ((Ascii (false, true, false, false,
+             true, true, true, false)), EmptyString))))))
+         | s0 :: l1 ->
+           (match s0 with
+            | SN root ->
+              (match l1 with
+               | [] ->
+                 sx_err (String ((Ascii (true, true, false, false, true,
+                   true, true, false)), (String ((Ascii (true, false, true,
+                   false, false, true, true, false)), (String ((Ascii (false,
+                   true, false, false, true, true, true, false)),
+                   EmptyString))))))
+               | s1 :: l2 ->
+                 (match s1 with
+                  | SB idx ->
+                    (match l2 with
+                     | [] ->
+                       sx_err (String ((Ascii (true, true, false, false,
+                         true, true, true, false)), (String ((Ascii (true,
+                         false, true, false, false, true, true, false)),
+                         (String ((Ascii (false, true, false, false, true,
+                         true, true, false)), EmptyString))))))
+                     | s2 :: l3 ->
+                       (match s2 with
+                        | SB crc ->
+                          (match l3 with
+                           | [] ->
+                             sx_err (String ((Ascii (true, true, false,
+                               false, true, true, true, false)), (String
+                               ((Ascii (true, false, true, false, false,
+                               true, true, false)), (String ((Ascii (false,
+                               true, false, false, true, true, true, false)),
+                               EmptyString))))))
+                           | s3 :: l4 ->
+                             (match s3 with
+                              | SB cache ->
+                                (match l4 with
+                                 | [] ->
+                                   (match nodes_of_sx dag with
+                                    | Some cells ->
+                                      (match serialize cells
+                                               (hashes_of cells)
+                                               ((N.to_nat root) :: []) idx
+                                               crc cache with
+                                       | Ok out ->
+                                         SL ((SBytes out) :: ((SB
+                                           (certificate cells (N.to_nat root)
+                                             out)) :: []))
+                                       | Err _ ->
+                                         SA (String ((Ascii (true, false,
+                                           true, false, false, true, true,
+                                           false)), (String ((Ascii (false,
+                                           true, false, false, true, true,
+                                           true, false)), (String ((Ascii
+                                           (false, true, false, false, true,
+                                           true, true, false)),
+                                           EmptyString))))))
+                                       | Panic _ ->
+                                         SA (String ((Ascii (false, false,
+                                           false, false, true, true, true,
+                                           false)), (String ((Ascii (true,
+                                           false, false, false, false, true,
+                                           true, false)), (String ((Ascii
+                                           (false, true, true, true, false,
+                                           true, true, false)), (String
+                                           ((Ascii (true, false, false, true,
+                                           false, true, true, false)),
+                                           (String ((Ascii (true, true,
+                                           false, false, false, true, true,
+                                           false)), EmptyString)))))))))))
+                                    | None ->
+                                      sx_err (String ((Ascii (false, false,
+                                        true, false, false, true, true,
+                                        false)), (String ((Ascii (true,
+                                        false, false, false, false, true,
+                                        true, false)), (String ((Ascii (true,
+                                        true, true, false, false, true, true,
+                                        false)), EmptyString)))))))
+                                 | _ :: _ ->
+                                   sx_err (String ((Ascii (true, true, false,
+                                     false, true, true, true, false)),
+                                     (String ((Ascii (true, false, true,
+                                     false, false, true, true, false)),
+                                     (String ((Ascii (false, true, false,
+                                     false, true, true, true, false)),
+                                     EmptyString)))))))
+                              | _ ->
+                                sx_err (String ((Ascii (true, true, false,
+                                  false, true, true, true, false)), (String
+                                  ((Ascii (true, false, true, false, false,
+                                  true, true, false)), (String ((Ascii
+                                  (false, true, false, false, true, true,
+                                  true, false)), EmptyString))))))))
+                        | _ ->
+                          sx_err (String ((Ascii (true, true, false, false,
+                            true, true, true, false)), (String ((Ascii (true,
+                            false, true, false, false, true, true, false)),
+                            (String ((Ascii (false, true, false, false, true,
+                            true, true, false)), EmptyString))))))))
+                  | _ ->
+                    sx_err (String ((Ascii (true, true, false, false, true,
+                      true, true, false)), (String ((Ascii (true, false,
+                      true, false, false, true, true, false)), (String
+                      ((Ascii (false, true, false, false, true, true, true,
+                      false)), EmptyString))))))))
+            | _ ->
+              sx_err (String ((Ascii (true, true, false, false, true, true,
+                true, false)), (String ((Ascii (true, false, true, false,
+                false, true, true, false)), (String ((Ascii (false, true,
+                false, false, true, true, true, false)), EmptyString))))))))
+      | _ ->
+        sx_err (String ((Ascii (true, true, false, false, true, true, true,
+          false)), (String ((Ascii (true, false, true, false, false, true,
+          true, false)), (String ((Ascii (false, true, false, false, true,
+          true, true, false)), EmptyString))))))))
+| _ ->
+  sx_err (String ((Ascii (true, true, false, false, true, true, true,
+    false)), (String ((Ascii (true, false, true, false, false, true, true,
+    false)), (String ((Ascii (false, true, false, false, true, true, true,
+    false)), EmptyString))))))
+
 (** val run : string -> sx -> sx **)
 
 let run name a =
@@ -4400,34 +5202,55 @@ let run name a =
                                 true, true, true, false)),
                                 EmptyString))))))))))))))))))))
                            then run_hashes a
-                           else sx_err (String ((Ascii (true, false, true,
-                                  false, true, true, true, false)), (String
-                                  ((Ascii (false, true, true, true, false,
-                                  true, true, false)), (String ((Ascii (true,
-                                  true, false, true, false, true, true,
-                                  false)), (String ((Ascii (false, true,
-                                  true, true, false, true, true, false)),
-                                  (String ((Ascii (true, true, true, true,
-                                  false, true, true, false)), (String ((Ascii
-                                  (true, true, true, false, true, true, true,
-                                  false)), (String ((Ascii (false, true,
-                                  true, true, false, true, true, false)),
-                                  (String ((Ascii (false, false, false,
-                                  false, false, true, false, false)), (String
-                                  ((Ascii (true, true, false, false, false,
-                                  true, true, false)), (String ((Ascii (true,
-                                  false, false, false, false, true, true,
-                                  false)), (String ((Ascii (true, true,
-                                  false, false, true, true, true, false)),
-                                  (String ((Ascii (true, false, true, false,
-                                  false, true, true, false)), (String ((Ascii
-                                  (false, false, false, false, false, true,
-                                  false, false)), (String ((Ascii (true,
-                                  true, false, true, false, true, true,
-                                  false)), (String ((Ascii (true, false,
-                                  false, true, false, true, true, false)),
-                                  (String ((Ascii (false, true, true, true,
-                                  false, true, true, false)), (String ((Ascii
-                                  (false, false, true, false, false, true,
-                                  true, false)),
-                                  EmptyString))))))))))))))))))))))))))))))))))
+                           else if is (String ((Ascii (true, true, false,
+                                     false, false, true, true, false)),
+                                     (String ((Ascii (false, false, false,
+                                     false, true, true, false, false)),
+                                     (String ((Ascii (true, false, false,
+                                     false, true, true, false, false)),
+                                     (String ((Ascii (false, true, true,
+                                     true, false, true, false, false)),
+                                     (String ((Ascii (true, true, false,
+                                     false, true, true, true, false)),
+                                     (String ((Ascii (true, false, true,
+                                     false, false, true, true, false)),
+                                     (String ((Ascii (false, true, false,
+                                     false, true, true, true, false)),
+                                     EmptyString))))))))))))))
+                                then run_ser a
+                                else sx_err (String ((Ascii (true, false,
+                                       true, false, true, true, true,
+                                       false)), (String ((Ascii (false, true,
+                                       true, true, false, true, true,
+                                       false)), (String ((Ascii (true, true,
+                                       false, true, false, true, true,
+                                       false)), (String ((Ascii (false, true,
+                                       true, true, false, true, true,
+                                       false)), (String ((Ascii (true, true,
+                                       true, true, false, true, true,
+                                       false)), (String ((Ascii (true, true,
+                                       true, false, true, true, true,
+                                       false)), (String ((Ascii (false, true,
+                                       true, true, false, true, true,
+                                       false)), (String ((Ascii (false,
+                                       false, false, false, false, true,
+                                       false, false)), (String ((Ascii (true,
+                                       true, false, false, false, true, true,
+                                       false)), (String ((Ascii (true, false,
+                                       false, false, false, true, true,
+                                       false)), (String ((Ascii (true, true,
+                                       false, false, true, true, true,
+                                       false)), (String ((Ascii (true, false,
+                                       true, false, false, true, true,
+                                       false)), (String ((Ascii (false,
+                                       false, false, false, false, true,
+                                       false, false)), (String ((Ascii (true,
+                                       true, false, true, false, true, true,
+                                       false)), (String ((Ascii (true, false,
+                                       false, true, false, true, true,
+                                       false)), (String ((Ascii (false, true,
+                                       true, true, false, true, true,
+                                       false)), (String ((Ascii (false,
+                                       false, true, false, false, true, true,
+                                       false)),
+                                       EmptyString))))))))))))))))))))))))))))))))))
